@@ -351,11 +351,11 @@ def collection_id_preimage(b, e, l, has_l, m):
         sys.stdout = old_out
 
 
-def h_collid_one(b: str, e: str, l: str, hl: bool, m: int, x: str, hx: bool, mx: int, which: int):
+def h_collid_one(b: str, e: str, l: str, hl: bool, m: int, x: str, hx: bool, mx: int, which: int, maxlen: int = 2):
     """two requests that differ in at most one field (base_url / script_extension / login / metabook):
     the hashed text is the same iff the field has the same value (same metabook content for the metabook)"""
     for s_ in (b, e, x):
-        assume(len(s_) <= 2 and in_alphabet(s_, ID_ALPHABET))
+        assume(len(s_) <= maxlen and in_alphabet(s_, ID_ALPHABET))
     assume(len(l) <= 1 and in_alphabet(l, ID_ALPHABET))
     mbs = metabook_texts()
     if not hl:
@@ -431,7 +431,7 @@ def build(tier: str) -> CheckSpec:
              Cube("JSON value with an extra key -> load -> serialize", h_json_first, {"tidx": int, "nidx": int, "val": str, "t": str}, {}, timeout=tmo, group="roundtrip"),
              Cube("sparse JSON values, then in-place change", h_sparse, {"tidx": int, "p0": bool, "p1": bool, "p2": bool, "p3": bool, "t": str}, {}, timeout=tmo, group="defaults"),
              ] + [Cube(f"collection id: requests differing in {n}", h_collid_one, {"b": str, "e": str, "l": str, "hl": bool, "m": int, "x": str, "hx": bool, "mx": int},
-                       {"which": w}, timeout=tmo, per_path_timeout=30, group="collection-id") for w, n in enumerate(["base_url", "script_extension", "login", "metabook"])
+                       {"which": w, "maxlen": 2 if tier == "quick" else 3}, timeout=tmo, per_path_timeout=30, group="collection-id") for w, n in enumerate(["base_url", "script_extension", "login", "metabook"])
              ] + [Cube(f"collection id: field boundary {n}", h_collid_split, {"u1": str, "v1": str, "u2": str, "v2": str}, {"pair": w}, timeout=tmo, per_path_timeout=30,
                        group="collection-id") for w, n in enumerate(["base_url|script_extension", "script_extension|login"])
              ] + [Cube("twin: nested chapter", twin_nested, {"n": int, "k0": int, "k1": int}, {}, timeout=60, role="twin")]
@@ -443,7 +443,7 @@ def build(tier: str) -> CheckSpec:
                    _nserve().make_collection_id, metabook.calc_checksum, metabook.Collection.dumps],
         bounds={"items": "0..3, each an article / a chapter opening (following articles nest into it) / an article with an unknown extra attribute",
                 "titles": "symbolic strings <= 3 chars", "revisions": "symbolic ints, present or absent", "displaytitle": "present or absent",
-                "collection id": "pairs of requests that differ in at most one of base_url / script_extension (symbolic strings <= 2 chars over %r, the other fields fixed), login_credentials (absent or <= 1 char), "
+                "collection id": "pairs of requests that differ in at most one of base_url / script_extension (symbolic strings <= 2 chars quick / 3 thorough over %r, the other fields fixed), login_credentials (absent or <= 1 char), "
                                  "metabook (13 JSON texts in 9 content classes: key order, whitespace, re-serialization, undeclared attributes, revision, title, order, chapter nesting, collection title); "
                                  "pairs where two adjacent fields both vary (<= 1 char each; field boundary)" % ID_ALPHABET,
                 "json first": "JSON values of every type with a title and one extra key named 'note' or like any public method / property of the classes (harvested from the source), value <= 2 chars",
